@@ -92,7 +92,12 @@ def gen(tier, seed, chunk, nchunks_):
             if first is None:
                 first = argv
             steps.append({"env": envops, "argv": argv})
-        cases.append({"decl": d, "steps": steps})
+        case = {"decl": d, "steps": steps}
+        if len(d["opts"]) >= 2 and nseq >= 2 and rng.random() < 0.2:
+            # the parser GROWS between two calls: it starts with the first k options and gains the others
+            # just before call j; every call is compared with a fresh parser of the declaration as it is then
+            case["grow"] = [rng.randint(1, len(d["opts"]) - 1), rng.randint(1, nseq - 1)]
+        cases.append(case)
     # scale: many options in one group (beyond 8- and 16-bit counters) and long call sequences
     for k in range(3 if tier == "quick" else 8):
         n = rng.choice([17, 65, 255, 256, 257, 300, 513])
@@ -138,7 +143,12 @@ def script(cid, case):
     universe = sorted({o["env"] for o in d["opts"] if o.get("env")} |
                       {e[0] for st in case["steps"] for e in st["env"]})
     states = []
-    for st in case["steps"]:
+    grow = case.get("grow")
+    partial = dict(d, opts=d["opts"][:grow[0]]) if grow else None
+    for si, st in enumerate(case["steps"]):
+        if grow and si == grow[1]:
+            for line in optrun.decl_lines(d, first_opt=grow[0]):
+                actions.append(("raw", line))
         for name, val in st["env"]:
             if val is None:
                 actions.append(("unsetenv", name))
@@ -148,15 +158,15 @@ def script(cid, case):
                 envstate[name] = val
         states.append(dict(envstate))
         actions.append(("parse", "A", st["argv"]))
-    for st, es in zip(case["steps"], states):
+    for si, (st, es) in enumerate(zip(case["steps"], states)):
         for name in universe:
             if name in es:
                 actions.append(("setenv", name, es[name]))
             else:
                 actions.append(("unsetenv", name))
-        actions.append(("decl", d))
+        actions.append(("decl", partial if grow and si < grow[1] else d))
         actions.append(("parse", "A", st["argv"]))
-    text, _ = optrun.case_script(cid, d, {}, actions)
+    text, _ = optrun.case_script(cid, partial if grow else d, {}, actions)
     return text
 
 
@@ -173,6 +183,8 @@ def evaluate(case, lines, S):
     long_lived, fresh = plines[:n], plines[n:]
     if case.get("scale"):
         S.counters["scale:" + case["scale"]] += 1
+    if case.get("grow"):
+        S.counters["parsers-that-grew-between-two-calls"] += 1
     touched = False
     for k in range(n):
         if k > 0:
